@@ -227,6 +227,18 @@ def conv_success_term(conv, r):
     return ("o", "?success")
 
 
+_SUMM = {}
+
+
+def _written_params(prog, callee):
+    """parameter indices the callee may write through (inter-procedural write summaries, computed once per program)"""
+    sm = _SUMM.get(id(prog))
+    if sm is None:
+        from .derive import Summaries
+        sm = _SUMM[id(prog)] = Summaries(prog)
+    return sm.w.get((callee.mod["tu"], callee.name), ())
+
+
 class DFlags(Plugin):
     """destination typestate: has this call written into dest, was dest cleared at its start / completely since, is a NUL known in dest"""
     inline_depth = 3
@@ -390,9 +402,13 @@ class DFlags(Plugin):
                         else:
                             pl = s.write(pl, args[pa], n, False, eng, facts)
                 return [(pl, [])]
-            # opaque library callee receiving dest: assume it honours its own contract (string in dest or cleared on error)
-            if any(s.is_dest(a) for a in args):
-                a0 = [a for a in args if s.is_dest(a)][0]
+            # opaque library callee receiving dest: assume it honours its own contract (string in dest or cleared on error) --
+            # but only where dest is the callee's own destination; handed over as a source (never written by the callee) it is left as it is
+            dk = [k for k, a in enumerate(args) if s.is_dest(a)]
+            if dk and all(k not in _written_params(s.prog, callee) for k in dk):
+                return [(pl, [])]
+            if dk:
+                a0 = args[dk[0]]
                 w = s.write(pl, a0, None, False, eng, facts)
                 ok = w[:3] + (True,) + w[4:]
                 conv = s.opaque_convention.get(callee.name)
